@@ -16,22 +16,22 @@ CLAIMED = {
     note="Trusted: the harness's exact Fraction evaluator, structure audit and tolerance rule (1e-9/1e-6 x forward-error scale); start expressions limited to the documented generator/grammar families; equations compared at planted solutions, random points and exact affine roots only."),
  "C10": dict(
     technique="deterministic simulation: seeded parser sessions with abort-point sweep (failure injected at every token position) checked against a fresh-parser reference model",
-    text="Exploration by deterministic simulation of call histories on one long-lived parser: seeded sessions biased to failing inputs plus a systematic abort-point sweep (truncation / poison token at every cursor position, each followed by good parses on the same parser). Oracles: per-op wall budget (termination), closed exception set with an own scanner deciding when ValueError is allowed, own link audit of returned trees, and agreement with a fresh parser after every failure. Per-string clauses are sampled, not proved.",
+    text="Exploration by deterministic simulation of call histories on one long-lived parser: seeded sessions biased to failing inputs, a systematic abort-point sweep (truncation / poison token at every cursor position, each followed by good parses on the same parser) and marathon sessions (one parser, 800-2500 calls, mostly new texts, many left with open groups). Oracles: per-op wall budget (termination), closed exception set with an own scanner deciding when ValueError is allowed, own link audit of returned trees, and agreement with a fresh parser -- and, for a seeded sample of requests, with a parser in a pristine process (zygote forked before any code under test ran) -- after every failure. Per-string clauses are sampled, not proved.",
     ref="DESIGN.md 3.2",
     note="Trusted: fresh ExpressionParser() as the memoryless reference; own scanner for 'unsupported character / malformed number'; strings <= ~100 chars, nesting <= 60."),
  "C12": dict(
     technique="deterministic simulation: seeded call histories (parse/tokenize/clear/client list edits) on one parser, compared op-by-op with a memoryless reference model",
-    text="Exploration by deterministic simulation: seeded sessions of parse / tokenize / clear_cache / failing-parse calls and list-level client edits of handed-out token lists on one long-lived parser over a small pool of confusable texts; every request is also issued to a fresh parser (the 'no memory' reference model) and trees, token lists and exception classes must agree. Sampling of histories; evidence, not proof.",
+    text="Exploration by deterministic simulation: seeded sessions of parse / tokenize / clear_cache / failing-parse calls and list-level client edits of handed-out token lists on one long-lived parser over a small pool of confusable texts; every request is also issued to a fresh parser (the 'no memory' reference model) and, for a seeded sample, to a parser in a pristine process, and trees, token lists and exception classes must agree; marathon sessions (800-2500 calls, mostly new texts) exercise bounded caches and accumulating state. Sampling of histories; evidence, not proof.",
     ref="DESIGN.md 3.1",
     note="Trusted: fresh ExpressionParser() as reference; the harness never mutates returned trees or Token objects (outside the property's quantifier)."),
  "C17": dict(
     technique="deterministic simulation owning the random stream, PYTHONHASHSEED and the global number mode; seeded generator-call sessions with biased-draw fault injection and independent output oracles",
-    text="Exploration by deterministic simulation of generator-call sessions on one shared, never re-seeded random stream, in interpreters started under explicit PYTHONHASHSEED values, with the module-global pretty-number switch toggled between calls and (reach only) a simulator-owned biased stream. Oracles: fresh parser accepts the text, positive int complexity, independent like-term detector, distinctness/exclusion of variable sets, split sums. Sampling over seeds x parameters x modes.",
+    text="Exploration by deterministic simulation of generator-call sessions on one shared, never re-seeded random stream, in interpreters started under explicit PYTHONHASHSEED values, with the module-global pretty-number switch toggled between calls and a simulator-owned biased stream (extreme, repeated and 'stuck' draws) that makes rare branches and fallbacks common. Oracles: fresh parser accepts the text, positive int complexity, independent like-term detector, distinctness/exclusion of variable sets, split sums. Sampling over seeds x parameters x modes.",
     ref="DESIGN.md 3.4",
     note="Trusted: the harness's own like-term detector and parameter ranges taken as 'documented ranges' (defaults, probabilities in [0,1], counts satisfiable within the 24-letter alphabet)."),
  "C18": dict(
     technique="deterministic simulation: seeded layout-call sessions on shared nodes (stale per-node state, sub-tree layouts, rotations between calls) against a pristine-clone reference layout; exhaustive small shapes as session starts",
-    text="Exploration by deterministic simulation of layout-call histories on one tree whose nodes keep layout scratch state between calls: repeated layouts, layouts of sub-trees, other multipliers and structural edits in between. Reference model: the layout of a pristine clone of the current shape; mirror clone must give mirrored coordinates; tidy-tree invariants are step invariants on every call. Thorough tier enumerates every shape up to 9 nodes as session start (exhaustive for the shape clause up to that bound) and samples larger ones.",
+    text="Exploration by deterministic simulation of layout-call histories on one tree whose nodes keep layout scratch state between calls: repeated layouts (by one long-lived TreeLayout object or a new one per call), layouts of sub-trees, other multipliers and structural edits (rotate, swap, grow, prune) in between; trees are fresh shapes (random, motif-composed, full), parsed expressions and rewrite results with duplicate node ids. Reference model: the layout of a pristine clone of the current shape; mirror clone must give mirrored coordinates; tidy-tree invariants are step invariants on every call. Thorough tier enumerates every shape up to 10 nodes as session start (quick: 8) (exhaustive for the shape clause up to that bound) and samples larger ones.",
     ref="DESIGN.md 3.5",
     note="Trusted: own invariant checker; the pristine-clone layout as reference for repeatability (real code on fresh nodes)."),
 }
